@@ -1,9 +1,94 @@
-From Clip Require Import base.Geom base.Winding base.Region proofs.SpecAlgebra.
+(* C13 — property theorems (statements only; proofs live in proofs/). *)
+From Coq Require Import ZArith List Permutation.
+From Clip Require Import base.Geom base.Winding base.Region base.CSem.
+From Clip Require Import gen.Gen_core gen.Gen_engine model.LocMin model.Sweep1D.
+From Clip Require Import proofs.SpecAlgebra proofs.LocMin proofs.LocMinSort proofs.Sweep1D_gen proofs.C13_tables.
+Import ListNotations.
 Local Open Scope Z_scope.
 
+(* ---------------------------------------------------------------- the specification (what "the result" means) *)
+
+(* set algebra, pointwise on the Coq-defined region: Xor = Union minus Intersection; Difference and Intersection
+   partition the subject region *)
 Theorem C13_spec_algebra : forall fr S C q,
   spec_closed Xor fr S C q = spec_closed Union fr S C q && negb (spec_closed Intersection fr S C q)
   /\ xorb (spec_closed Difference fr S C q) (spec_closed Intersection fr S C q) = inside fr (wn_paths S q)
   /\ spec_closed Difference fr S C q && spec_closed Intersection fr S C q = false.
 Proof. intros. unfold spec_closed. split; [apply spec_xor|apply spec_partition]. Qed.
 Print Assumptions C13_spec_algebra.
+
+(* the specified region does not depend on the representation of the input: path order, start vertex,
+   duplicate / closing vertices, subject<->clip (Intersection, Union, Xor), global reversal with the fill-rule
+   exchange; and it is equivariant under translation, integer scaling, transpose and mirrors (the latter
+   exchanging Positive and Negative) *)
+Theorem C13_spec_invariance : forall ct fr S C q,
+  (forall S' C', Permutation S S' -> Permutation C C' -> spec_closed ct fr S' C' q = spec_closed ct fr S C q)
+  /\ (forall S' C', Forall2 same_ring S S' -> Forall2 same_ring C C' -> spec_closed ct fr S' C' q = spec_closed ct fr S C q)
+  /\ (ct = Intersection \/ ct = Union \/ ct = Xor -> spec_closed ct fr C S q = spec_closed ct fr S C q)
+  /\ spec_closed ct (flip_fr fr) (map (@rev pt) S) (map (@rev pt) C) q = spec_closed ct fr S C q
+  /\ (forall m, pmap_ok m -> (pmap_flips m = true -> on_paths (S ++ C) q = false) ->
+        spec_closed ct (pmap_fr m fr) (map_paths m S) (map_paths m C) (apply_pmap m q) = spec_closed ct fr S C q).
+Proof. exact spec_invariance. Qed.
+Print Assumptions C13_spec_invariance.
+
+(* ---------------------------------------------------------------- input normalisation in the engine *)
+(* model/LocMin.v is the hand model of AddPaths_ (closed paths): strip consecutive duplicates and the closing
+   vertex, flag local minima/maxima, list the minima; tied to the code by exact correspondence with
+   vertex_lists_/minima_list_ read through private access (checks/C13.py). *)
+
+(* starting a closed path at another vertex gives the same flagged ring (read from another vertex) and the same
+   set of local minima *)
+Theorem C13_locmin_rotate : forall p k, clean p ->
+  exists r ms r' ms',
+    add_path p = Ring r ms /\ add_path (rotl k p) = Ring r' ms'
+    /\ r' = rotl k r
+    /\ map (fun i => nth i r ((0, 0), fl_empty)) ms = min_vertices r
+    /\ map (fun i => nth i r' ((0, 0), fl_empty)) ms' = min_vertices r'
+    /\ Permutation (min_vertices r') (min_vertices r).
+Proof. exact locmin_rotate. Qed.
+Print Assumptions C13_locmin_rotate.
+
+(* inserting repeated vertices (m: how many copies at each position) and c closing vertices changes nothing *)
+Theorem C13_locmin_dups : forall m c p, clean p -> add_path (insert_dups m c p) = add_path p.
+Proof. exact locmin_dups. Qed.
+Print Assumptions C13_locmin_dups.
+
+(* what the sweep assumes of the flagged ring: minima and maxima alternate around it, equally many *)
+Theorem C13_locmin_alternate : forall p, clean p ->
+  exists r ms, add_path p = Ring r ms /\ alternate_cyclically (map (fun v => kind_of (snd v)) r).
+Proof. exact locmin_alternate. Qed.
+Print Assumptions C13_locmin_alternate.
+
+(* the comparator the model sorts with is the LocMinSorter regenerated from the source *)
+Theorem C13_sorter_is_translated : forall a b, locmin_before a b = LocMinSorter_call a b.
+Proof. exact locmin_sorter_is_translated. Qed.
+
+(* with distinct minima points (general position) every sort of every ordering of the minima is the same list:
+   the sorted minima list does not depend on the order in which paths were added *)
+Theorem C13_sort_perm : forall (A : Type) (key : A -> pt) (l l' : list A),
+  Permutation l l' -> NoDup (map key l) ->
+  stable_sort (before key) l = stable_sort (before key) l'.
+Proof. exact @sort_perm. Qed.
+Print Assumptions C13_sort_perm.
+
+(* ---------------------------------------------------------------- the contribution table (translated) *)
+(* subject and clip are treated alike by Intersection, Union and Xor *)
+Theorem C13_table_symmetric : forall ct fr e,
+  ct = Intersection \/ ct = Union \/ ct = Xor ->
+  IsContributingClosed (ct_code ct) (fr_code fr) (swap_type e) = IsContributingClosed (ct_code ct) (fr_code fr) e.
+Proof. exact table_symmetric. Qed.
+Print Assumptions C13_table_symmetric.
+
+(* reversing all paths (all winding counts negated) with Positive <-> Negative exchanged selects the same edges *)
+Theorem C13_table_reverse : forall ct fr e,
+  IsContributingClosed (ct_code ct) (fr_code (flip fr)) (negate e) = IsContributingClosed (ct_code ct) (fr_code fr) e
+  /\ IsContributingOpen (ct_code ct) (fr_code (flip fr)) (negate e) = IsContributingOpen (ct_code ct) (fr_code fr) e.
+Proof. intros. split; [apply table_reverse|apply open_table_reverse]. Qed.
+Print Assumptions C13_table_reverse.
+
+(* partial: NOT proved is that the engine's output *paths* (not only the specified region, the normalised input
+   and the selected edges) are identical under these changes of representation -- that needs "the sweep is a
+   function of the flagged rings and the sorted minima only", an argument about all of clipper.engine.cpp; it is
+   validated by exact metamorphic comparison (checks/C13.py). *)
+Definition C13_representation_partial :=
+  (C13_spec_invariance, C13_locmin_rotate, C13_locmin_dups, C13_sort_perm, C13_table_symmetric, C13_table_reverse).
